@@ -9,11 +9,12 @@
    applied (D15: total sort key inside a layer; D2: Uses.users compares tuples); the pinned
    behaviour is kept as [sort_layer_pinned] / [users_pinned] for the refutation examples.
 
-   A product is a [node] = (name, version-or-None).  Declared products have a version and a table
-   in the [world]; a dependency that cannot be resolved is listed by the code as the stub
-   Product(name, version text of the table line) which has no table.  (The code also compares
-   flavors: a stub has flavor None, a declared product the stack flavor; with one flavor and
-   explicit versions resolving exactly when declared the flavor adds nothing and is left out.)
+   A product is a [node] = (name, version-or-None, found?).  Declared products have a version and a
+   table in the [world]; a dependency that cannot be resolved is listed by the code as the stub
+   Product(name, version text of the table line), which has no table and whose flavor is None.
+   Product equality compares name, version and flavor, so with one stack flavor the third
+   component (found = flavor is not None) is exactly what tells a stub from the declared product
+   of the same name and version (they do meet: see the second walk of getDependentProducts).
 
    An [edge] is one setupRequired/setupOptional line *after* resolution under the version
    resolution order: [evers] is the version text of the line (None for a bare name), [eres] the
@@ -21,7 +22,10 @@
    to C03 and is an input here. *)
 From Eupsv Require Import Base.Base.
 
-Definition node := (str * option str)%type.
+Definition node := (str * option str * bool)%type.
+Definition nname (p : node) : str := fst (fst p).
+Definition nver (p : node) : option str := snd (fst p).
+Definition nreal (p : node) : bool := snd p.
 
 Definition ostr_eqb (a b : option str) : bool :=
   match a, b with
@@ -30,7 +34,8 @@ Definition ostr_eqb (a b : option str) : bool :=
   | _, _ => false
   end.
 
-Definition node_eqb (a b : node) : bool := str_eqb (fst a) (fst b) && ostr_eqb (snd a) (snd b).
+Definition node_eqb (a b : node) : bool :=
+  str_eqb (nname a) (nname b) && ostr_eqb (nver a) (nver b) && Bool.eqb (nreal a) (nreal b).
 
 Fixpoint mem_node (x : node) (l : list node) : bool :=
   match l with
@@ -53,17 +58,18 @@ Definition declared (w : world) (n v : str) : bool :=
   match table_of w n v with Some _ => true | None => false end.
 
 Definition node_table (w : world) (p : node) : option (list edge) :=
-  match snd p with Some v => table_of w (fst p) v | None => None end.
+  if nreal p then match nver p with Some v => table_of w (nname p) v | None => None end else None.
 
-Definition world_nodes (w : world) : list node := map (fun it => (fst (fst it), Some (snd (fst it)))) w.
+Definition world_nodes (w : world) : list node :=
+  map (fun it => (fst (fst it), Some (snd (fst it)), true)) w.
 
 (* ---------------------------------------------------------------- resolution of one line *)
 
-(* what the line denotes when nothing is pinned: (product, found?) *)
-Definition own_target (e : edge) : node * bool :=
+(* what the line denotes when nothing is pinned *)
+Definition own_target (e : edge) : node :=
   match eres e with
-  | Some r => ((ename e, Some r), true)
-  | None => ((ename e, evers e), false)
+  | Some r => (ename e, Some r, true)
+  | None => (ename e, evers e, false)
   end.
 
 (* requiredVersions: python dict built by update() from a list, so the last mention wins *)
@@ -81,15 +87,15 @@ Fixpoint pin_of (pins : list (str * option str)) (n : str) : option (option str)
    when that finds nothing the stub carries the version text of the line.  A pin of None (the
    listing held the stub Product(name, None)) makes findProduct ask for the preferred version, which is the
    query a bare line makes anyway. *)
-Definition resolve (w : world) (pins : list (str * option str)) (e : edge) : node * bool :=
+Definition resolve (w : world) (pins : list (str * option str)) (e : edge) : node :=
   match pin_of pins (ename e) with
   | None => own_target e
   | Some (Some v) =>
-      if declared w (ename e) v then ((ename e, Some v), true) else ((ename e, evers e), false)
+      if declared w (ename e) v then (ename e, Some v, true) else (ename e, evers e, false)
   | Some None =>
       match evers e with
       | None => own_target e
-      | Some _ => ((ename e, evers e), false)
+      | Some _ => (ename e, evers e, false)
       end
   end.
 
@@ -131,10 +137,9 @@ Section WalkLines.
     match es with
     | [] => Ok ([], st)
     | e :: r =>
-        let t := fst (resolve w pins e) in
-        let real := snd (resolve w pins e) in
+        let t := resolve w pins e in
         let sub :=
-          if real && negb (mem_node t (vis st)) then
+          if nreal t && negb (mem_node t (vis st)) then
             match node_table w t with
             | Some es' => rec t (S depth) es' (pd_ensure t (mark t st))
             | None => Ok ([], mark t st)
@@ -395,21 +400,29 @@ Section PSort.
     end.
 End PSort.
 
+Definition bool_compare (a b : bool) : comparison :=
+  match a, b with false, true => Lt | true, false => Gt | _, _ => Eq end.
+
 (* Product.__lt__ compares (name, version, flavor) tuples: str against None raises (D15) *)
 Definition node_cmp_pinned (a b : node) : option comparison :=
-  match str_compare (fst a) (fst b) with
-  | Eq => match snd a, snd b with
-          | Some x, Some y => Some (str_compare x y)
-          | None, None => Some Eq
+  match str_compare (nname a) (nname b) with
+  | Eq => match nver a, nver b with
+          | Some x, Some y =>
+              match str_compare x y with
+              | Eq => if Bool.eqb (nreal a) (nreal b) then Some Eq else None
+              | c => Some c
+              end
+          | None, None => if Bool.eqb (nreal a) (nreal b) then Some Eq else None
           | _, _ => None
           end
   | c => Some c
   end.
 
-(* repaired key: (name, version or empty) *)
+(* repaired key: (name, version or empty, flavor or empty) *)
 Definition node_cmp (a b : node) : option comparison :=
-  Some (lex (str_compare (fst a) (fst b))
-            (str_compare (ostr_or_empty (snd a)) (ostr_or_empty (snd b)))).
+  Some (lex (str_compare (nname a) (nname b))
+       (lex (str_compare (ostr_or_empty (nver a)) (ostr_or_empty (nver b)))
+            (bool_compare (nreal a) (nreal b)))).
 
 Fixpoint sort_layers (cmp : node -> node -> option comparison) (L : list (list comp))
   : res (list (list node)) :=
@@ -454,17 +467,17 @@ Fixpoint depth_by_name (L : list (list node)) (i nlevel : nat) (m : amap nat) : 
   match L with
   | [] => m
   | l :: r => depth_by_name r (S i) nlevel
-                (fold_left (fun m p => aset (fst p) (nlevel - i - 1) m) l m)
+                (fold_left (fun m p => aset (nname p) (nlevel - i - 1) m) l m)
   end.
 
 Definition relabel (td : amap nat) (x : entry) : entry :=
-  match alookup (fst (enode x)) td with
+  match alookup (nname (enode x)) td with
   | Some d => (enode x, eoptional x, d)
   | None => x
   end.
 
 Definition entry_cmp (a b : entry) : option comparison :=
-  Some (lex (Nat.compare (edepth a) (edepth b)) (str_compare (fst (enode a)) (fst (enode b)))).
+  Some (lex (Nat.compare (edepth a) (edepth b)) (str_compare (nname (enode a)) (nname (enode b)))).
 
 Definition entry_sort (l : list entry) : list entry :=
   match psort entry_cmp l with Ok s => s | Err _ => l end.
@@ -495,7 +508,7 @@ Definition dependent_products_with (cmp : node -> node -> option comparison)
       let dp := drop_top top l in
       if negb topological then Ok dp
       else
-        let pins := map (fun x => (fst (enode x), snd (enode x))) dp in
+        let pins := map (fun x => (nname (enode x), nver (enode x))) dp in
         match walk_top fuel w pins top with
         | Err x => Err x
         | Ok (_, st) =>
@@ -514,7 +527,7 @@ Definition topo_graph (fuel : nat) (w : world) (top : node) : res graph :=
   match walk_top fuel w [] top with
   | Err x => Err x
   | Ok (l, _) =>
-      let pins := map (fun x => (fst (enode x), snd (enode x))) (drop_top top l) in
+      let pins := map (fun x => (nname (enode x), nver (enode x))) (drop_top top l) in
       match walk_top fuel w pins top with
       | Err x => Err x
       | Ok (_, st) => Ok (prepare (pd st))
@@ -534,7 +547,7 @@ Fixpoint listings_with (cmp : node -> node -> option comparison) (fuel : nat) (w
   match ps with
   | [] => Ok []
   | (n, v) :: r =>
-      match dependent_products_with cmp fuel w (n, Some v) true with
+      match dependent_products_with cmp fuel w (n, Some v, true) true with
       | Err x => Err x
       | Ok l => match listings_with cmp fuel w r with
                 | Err x => Err x
@@ -546,10 +559,21 @@ Fixpoint listings_with (cmp : node -> node -> option comparison) (fuel : nat) (w
 Definition uses_index (fuel : nat) (w : world) : res (list ((str * str) * list entry)) :=
   listings_with node_cmp fuel w (map fst w).
 
+(* the string key name:version of Uses._setup_by does not see the flavor *)
+Definition ukey := (str * option str)%type.
+Definition ukey_of (p : node) : ukey := (nname p, nver p).
+Definition ukey_eqb (a b : ukey) : bool := str_eqb (fst a) (fst b) && ostr_eqb (snd a) (snd b).
+
+Fixpoint uniq_keys (l : list ukey) : list ukey :=
+  match l with
+  | [] => []
+  | x :: r => x :: filter (fun y => negb (ukey_eqb y x)) (uniq_keys r)
+  end.
+
 (* Uses.invert for one key: the entries of _setup_by[key] *)
-Definition setup_by (idx : list ((str * str) * list entry)) (key : node) : list consumer :=
-  flat_map (fun it => map (fun x => (fst it, (snd (enode x), eoptional x, edepth x)))
-                          (filter (fun x => node_eqb (enode x) key) (snd it))) idx.
+Definition setup_by (idx : list ((str * str) * list entry)) (key : ukey) : list consumer :=
+  flat_map (fun it => map (fun x => (fst it, (nver (enode x), eoptional x, edepth x)))
+                          (filter (fun x => ukey_eqb (ukey_of (enode x)) key) (snd it))) idx.
 
 Definition user_eqb (a b : str * str) : bool := str_eqb (fst a) (fst b) && str_eqb (snd a) (snd b).
 
@@ -570,12 +594,12 @@ Fixpoint min_per_user (l : list consumer) : list consumer :=
   end.
 
 (* the keys of _setup_by, in order of first mention *)
-Definition index_keys (idx : list ((str * str) * list entry)) : list node :=
-  uniq_nodes (flat_map (fun it => map enode (snd it)) idx).
+Definition index_keys (idx : list ((str * str) * list entry)) : list ukey :=
+  uniq_keys (flat_map (fun it => map (fun x => ukey_of (enode x)) (snd it)) idx).
 
 (* Uses.users: keys name:version matching the request (no version = every key of that name,
    the stub key name:None included) *)
-Definition key_matches (x : str) (ov : option str) (k : node) : bool :=
+Definition key_matches (x : str) (ov : option str) (k : ukey) : bool :=
   str_eqb (fst k) x && match ov with None => true | Some v => ostr_eqb (snd k) (Some v) end.
 
 Definition consumers (idx : list ((str * str) * list entry)) (x : str) (ov : option str) : list consumer :=
@@ -587,9 +611,6 @@ Definition consumer_cmp_pinned (a b : consumer) : option comparison :=
   | Eq => None
   | c => Some c
   end.
-
-Definition bool_compare (a b : bool) : comparison :=
-  match a, b with false, true => Lt | true, false => Gt | _, _ => Eq end.
 
 (* repaired: (version or empty, optional, depth) *)
 Definition consumer_cmp (a b : consumer) : option comparison :=
